@@ -92,4 +92,84 @@ def getData (r : HttpResp) : Outcome :=
         if errors.truthy then fromErrorsDicts errors data else .data data
     | some _ => .invalid
 
+/-! ### `response.json()` as `get_data` sees it (C12, decoding glue)
+
+    `try: response_json = response.json()  except ValueError: raise GraphQLClientInvalidResponseError`
+    Only `ValueError` (JSONDecodeError, UnicodeDecodeError, the int-digit limit) is caught; anything
+    else `json()` raises (CPython: `RecursionError` for deeply nested bodies) escapes unchanged.
+    The status test comes first: for a non-2xx response `json()` is never called. -/
+
+inductive JsonCall where
+  | value (j : J)                 -- json() returned
+  | valueError                    -- json() raised a ValueError
+  | raises (exc : String)         -- json() raised something else
+  deriving Repr
+
+def JsonCall.body : JsonCall → Option J
+  | .value j => some j
+  | _ => none
+
+def getDataCall (status : Nat) (jc : JsonCall) : Outcome :=
+  if !isSuccess status then .http status
+  else
+    match jc with
+    | .raises x => .internal x
+    | jc => getData ⟨status, jc.body⟩
+
+/-! ### The exception objects (dependencies/exceptions.py): attributes and `str()`
+
+      class GraphQLClientHttpError:            __init__(status_code, response); __str__ = f"HTTP status code: {self.status_code}"
+      class GraphQLClientInvalidResponseError: __init__(response);              __str__ = "Invalid response format."
+      class GraphQLClientGraphQLError:         __init__(message, locations=None, path=None, extensions=None, original=None)
+                                               __str__ = self.message          # not a str -> TypeError: __str__ returned non-string
+      class GraphQLClientGraphQLMultiError:    __init__(errors, data=None);    __str__ = "; ".join(str(e) for e in self.errors)
+
+    `R` is whatever stands for the `httpx.Response` object (identity is what is carried). -/
+
+inductive Exc (R : Type) where
+  | http (statusCode : Nat) (response : R)
+  | invalid (response : R)
+  | gql (e : GqlErr)
+  | multi (errors : List GqlErr) (data : J)
+  deriving Repr
+
+/-- `str(e)` of one GraphQL error: the message object itself must be a `str` -/
+def GqlErr.str (g : GqlErr) : Except String String :=
+  match g.message with
+  | .str s => .ok s
+  | _ => .error "TypeError"
+
+/-- `[str(e) for e in errors]`, first failure escapes -/
+def strAll : List GqlErr → Except String (List String)
+  | [] => .ok []
+  | g :: gs =>
+    match g.str with
+    | .error x => .error x
+    | .ok s =>
+      match strAll gs with
+      | .error x => .error x
+      | .ok ss => .ok (s :: ss)
+
+def httpPrefix : String := "HTTP status code: "
+def invalidText : String := "Invalid response format."
+def multiSep : String := "; "
+
+def Exc.str {R : Type} : Exc R → Except String String
+  | .http s _ => .ok (httpPrefix ++ toString s)
+  | .invalid _ => .ok invalidText
+  | .gql g => g.str
+  | .multi es _ =>
+    match strAll es with
+    | .ok ss => .ok (multiSep.intercalate ss)
+    | .error x => .error x
+
+/-- the exception object behind an outcome of `get_data(response)`; `none` for a returned value and
+    for the undocumented escapes (`.internal`) -/
+def excOf {R : Type} (response : R) : Outcome → Option (Exc R)
+  | .http s => some (.http s response)
+  | .invalid => some (.invalid response)
+  | .multi gs d => some (.multi gs d)
+  | .data _ => none
+  | .internal _ => none
+
 end Ariadne.GetData
